@@ -564,8 +564,10 @@ def sharing_programs():
 
 class C06:
     prop = "C06"
-    lean_module = "Ogorek.Props.C01Pvm"
-    theorems = ["Ogorek.C01_C03_agree", "Ogorek.C02_memo_keys", "Ogorek.C06_dup_same", "Ogorek.C06_get_same", "Ogorek.C06_dict_shared",
+    lean_module = "Ogorek.Props.C06Pk"
+    theorems = ["Ogorek.C06_pickler_agree", "Ogorek.C06_pickler_pvm", "Ogorek.C02_pickler_shared", "Ogorek.psk_val", "Ogorek.sk_val",
+                "Ogorek.pruns_listGroups", "Ogorek.pruns_dictGroups", "Ogorek.PMemoInv.put", "Ogorek.pruns_get", "Ogorek.pyAssignAll_repG",
+                "Ogorek.C01_C03_agree", "Ogorek.C02_memo_keys", "Ogorek.C06_dup_same", "Ogorek.C06_get_same", "Ogorek.C06_dict_shared",
                 "Ogorek.C06_K1_witness", "Ogorek.C06_ref_appends_shared"]
     trusted_base = TB_PY + ["Ogorek/Pvm.lean as a model of CPython's pickle._Unpickler (hand-written from pickle.py; compared with the real CPython on "
                             "every generated program of this check; shared opcode-argument readers, so canonical text arguments only)"]
@@ -575,17 +577,33 @@ class C06:
                   "one reference is seen through every other (C06_ref_appends_shared) while in the code it is not (C06_K1_witness) — "
                   "known finding K1. On the programs the encoder itself writes the statement is a theorem: og-rek's decoder and the Lean model "
                   "of CPython's unpickler both accept exactly those bytes and return the value / its documented Python counterpart "
-                  "(C01_C03_agree, from C03_roundtrip and C01_pvm_table). PARTIAL: no simulation theorem between the two machines on "
+                  "(C01_C03_agree, from C03_roundtrip and C01_pvm_table). And on the programs CPython's own pickler writes: theorem "
+                  "C06_pickler_agree - for every object of the basic types with tree-shaped containers (str / bytes / bytearray objects "
+                  "may repeat and are then fetched from the memo), every protocol 0-5 and decoder configuration, the bytes of the model "
+                  "of pickle.dumps (cpDumpsFramedS: opcode choice, PUT / MEMOIZE and BINGET / GET, batches of 1000, the REDUCE forms of "
+                  "bytes / bytearray through memoized globals, PROTO and FRAME; compared byte for byte with the real pickle.dumps in C02) "
+                  "are accepted by Decode on a new Decoder AND by the model of CPython's unpickler, both consume all of them, and they "
+                  "return the same object: goOf obj on the Go side, pyOf obj (lists, dicts, bytearrays as heap objects with that "
+                  "content) on the Python side. The Python half (C06_pickler_pvm, by the induction psk_val) is a second development "
+                  "on the Python machine: runs with preconditions over the metastack, a representation relation with locality for "
+                  "lists AND dicts (both are filled in place there: pruns_listGroups, pruns_dictGroups, pyAssignAll_repG), bytearrays "
+                  "exempt from locality because a fetched one may be older than its container, and the memo invariant PMemoInv with "
+                  "PMemoInv.put / pruns_get. Hypotheses: what each side demands of dict keys (og-rek: acceptable to the table and "
+                  "pairwise different for it; CPython: hashable, at most one NaN-holding key), valid UTF-8 text, at protocol 0 the "
+                  "float-text hypothesis. PARTIAL: no simulation theorem between the two machines on "
                   "arbitrary programs (K1 and K6 make them differ where lists / NaN objects are shared); there the statement is decided "
                   "per run against the real CPython unpickler on generated and exhaustively enumerated programs (K1 runs being exactly "
                   "those on which the value- and reference-list machines of the model differ), and the Lean model of CPython's "
                   "unpickler is compared with the real one on the same programs.")
     level_note = "trusted: Lean kernel + standard axioms; decoder model (both list semantics); CPython's pure-Python unpickler as reference"
-    technique = ("Lean 4 proof (machine lemmas, K1 witness; both unpicklers on every encoder output) + differential correspondence against "
+    technique = ("Lean 4 proof (both unpicklers on every encoder output and on every output of the model of CPython's pickler; machine "
+                 "lemmas, K1 witness) + differential correspondence against "
                  "CPython's unpickler - and of the Lean model of that unpickler against it - on typed-grammar and exhaustive short programs")
     rule = ("programs from a typed grammar over an abstract stack of value kinds (every opcode variant og-rek supports, PUT/GET in all "
             "widths, MEMOIZE, DUP, POP, incremental APPEND(S)/SETITEM(S), PROTO/FRAME anywhere, py2-style STRING/UNICODE text forms), "
-            "plus all programs of <= 4 (quick, sampled at 4) / <= 5 (thorough) opcodes over a 17-opcode reduced alphabet; x 4 modes; "
+            "plus all programs of <= 4 (quick, sampled at 4) / <= 5 (thorough) opcodes over a 17-opcode reduced alphabet, plus what "
+            "pickle.dumps writes at protocols 0-5 for objects with tree-shaped containers and repeated str / bytes / bytearray "
+            "objects (the programs of C06_pickler_agree); x 4 modes; "
             "Decode must succeed whenever CPython does and denote the same value; distinct = distinct (mode, program)")
     assumptions = ["acyclic results", "canonical argument formatting (no whitespace in INT, no octal escapes in STRING)"]
 
@@ -608,6 +626,14 @@ class C06:
             progs += [b"T" + n.to_bytes(4, "little") + pay + b".", b"B" + n.to_bytes(4, "little") + pay + b".",
                       b"\x96" + n.to_bytes(8, "little") + pay + b".", b"X" + n.to_bytes(4, "little") + b"u" * n + b"."]
         progs += P.batch_programs()
+        # what CPython's pickler writes for objects with tree-shaped containers (the programs of theorem C06_pickler_agree)
+        import pickle
+        for o in shared_objects(rng, ctx.scale(40, 600)) + tree_objects(rng, ctx.scale(20, 300)):
+            if containers_are_tree(o, set()) and len(repr(o)) < 30000:
+                for pr in (range(6) if ctx.thorough else rng.sample(range(6), 2)):
+                    d = pickle.dumps(o, pr)
+                    if len(d) < 40000:
+                        progs.append(d)
         nan = b"G\x7f\xf8\x00\x00\x00\x00\x00\x00"     # one NaN object used as a key twice (K6), and two NaN objects (no finding)
         progs += [b"}" + nan + b"q\x00K\x01sh\x00K\x02s.", b"(" + nan + b"q\x00K\x01h\x00K\x02d.", b"}" + nan + b"2K\x01sK\x02s.",
                   b"}" + nan + b"q\x00\x85K\x01sh\x00\x85K\x02s.", b"}" + nan + b"K\x01s" + nan + b"K\x02s."]
